@@ -4,6 +4,7 @@ import (
 	"fmt"
 	"go/token"
 	"go/types"
+	"sort"
 	"strings"
 
 	"golang.org/x/tools/go/ssa"
@@ -15,10 +16,12 @@ func init() {
 	register(&Prop{
 		ID:          "C01",
 		Title:       "Value/Collection conform to a sequential register/map specification",
-		Explanation: "R01.1 failed calls have no effect: save is reachable only after a successful read and change; Validate errors return before GetAndUpdate; publishing is guarded by GetAndUpdate's nil error; in Delete the map delete and the REMOVE event are guarded by exists and by both preconditions; no possibly-non-nil error is returned after an effect (one allow-listed exception: the documented send timeout of Value.set). R01.2 the change function runs expected-value, expected-check, interceptBefore, masked merge, interceptAfter in this order, merges into dst (or a fresh message) and returns it. R01.3 the complete decision table of Collection.Update's read callback (generated id, exists, expect-absent, create-if-absent, callbacks) matches the specified outcomes. R01.4 List results pass through an ascending sort on the item id. R01.5 GenerateUniqueId only returns a candidate that passed the non-empty and not-exists tests on that path, in a constant-bounded loop ending in an error. R01.6 status codes of each failure class. R01.7 the id interceptor is applied in Get/Update/Delete/PullID and a generated id is mapped through it before it is used as key and reported. Does NOT decide equality of results and contents with a reference model over call sequences, merge semantics (C05) or interceptor behaviour.",
+		Explanation: "R01.1 failed calls have no effect: save is reachable only after a successful read and change; Validate errors return before GetAndUpdate; publishing is guarded by GetAndUpdate's nil error; in Delete the map delete and the REMOVE event are guarded by exists and by both preconditions; no possibly-non-nil error is returned after an effect (one allow-listed exception: the documented send timeout of Value.set). R01.2 the change function runs expected-value, expected-check, interceptBefore, masked merge, interceptAfter in this order, merges into dst (or a fresh message) and returns it. R01.3 the complete decision table of Collection.Update's read callback (generated id, exists, expect-absent, create-if-absent, callbacks) matches the specified outcomes. R01.4 List results pass through an ascending sort on the item id. R01.5 GenerateUniqueId only returns a candidate that passed the non-empty and not-exists tests on that path, in a constant-bounded loop ending in an error. R01.6 status codes of each failure class. R01.7 the id interceptor is applied in Get/Update/Delete/PullID and a generated id is mapped through it before it is used as key and reported. R01.19 every yes/no switch of a write request is turned on by exactly one option (generate-id does not imply create-if-absent). R01.20 the change time the register remembers is the time of the write (shared with R04.3). Does NOT decide equality of results and contents with a reference model over call sequences, merge semantics (C05) or interceptor behaviour.",
 		Assumptions: []string{"sort.Slice sorts by the given less function", "status.Error(f) builds a status with the given code"},
 		Run:         runC01,
 		Controls: []Control{
+			{Name: "gen-id-implies-create", File: "pkg/resource/opt.go", Old: "\t\twr.genEmptyID = true\n", New: "\t\twr.genEmptyID = true\n\t\twr.createIfAbsent = true\n", Expect: "R01.19"},
+			{Name: "value-remembers-the-clock-not-the-write-time", File: "pkg/resource/value.go", Old: "r.changeTime = changeTime", New: "r.changeTime = r.clock.Now()", Expect: "R01.20"},
 			{Name: "update-converts-every-error", File: "pkg/resource/collection.go", Old: "\t\tif s, ok := status.FromError(err); ok {\n\t\t\treturn nil, status.Errorf(s.Code(), \"%v %v\", s.Message(), id)\n\t\t}\n\t\treturn nil, err", New: "\t\ts := status.Convert(err)\n\t\treturn nil, status.Errorf(s.Code(), \"%v %v\", s.Message(), id)", Expect: "R01.18"},
 			{Name: "more-update-paths-delegates-to-update-mask", File: "pkg/resource/opt.go", Old: "\treturn WithMoreUpdateMask(&fieldmaskpb.FieldMask{Paths: paths})", New: "\treturn WithUpdateMask(&fieldmaskpb.FieldMask{Paths: paths})", Expect: "R01.16"},
 			{Name: "collection-save-stores-the-request", File: "pkg/resource/collection.go", Old: "\t\tfunc(msg proto.Message) {\n\t\t\tchangeTime = writeRequest.updateTime(c.clock)", New: "\t\tfunc(saved proto.Message) {\n\t\t\tchangeTime = writeRequest.updateTime(c.clock)", Expect: "R01.17"},
@@ -74,6 +77,10 @@ func runC01(c *an.Ctx) {
 	r0114(c, "R01.14")
 	r0118(c, "R01.18")
 	c.Min("R01.18", 1)
+	r0119(c, "R01.19")
+	c.Min("R01.19", 3)
+	// the time the register remembers is the time of the write (the event's and the seed's): shared with R04.3
+	c.Min("R01.20", shareAs(c, "R04.3", "R01.20", r043, nil))
 	r0116(c, "R01.16")
 	c.Min("R01.16", 4)
 	r0117as(c, "R01.17")
@@ -1829,6 +1836,57 @@ func r0117as(c *an.Ctx, rule string) {
 		}
 	}
 	c.Count("save_callbacks", n)
+}
+
+// r0119: a write option configures one thing. Each yes/no switch of a write request (create if absent, expect
+// absent, allow missing, generate an id, all fields writable) is turned on by exactly one option: what a write may do
+// is the union of the options its caller chose. An option that also flips another option's switch (generate-id
+// implying create-if-absent) makes a write do what its caller did not ask for - Update on a missing id creates it.
+func r0119(c *an.Ctx, rule string) {
+	setters := map[string]map[string]token.Pos{}
+	for _, fn := range c.Prog.FuncsIn(resPkg) {
+		if strings.HasSuffix(c.Prog.RelFile(fn.Pos()), "_test.go") {
+			continue
+		}
+		top := fn
+		for top.Parent() != nil {
+			top = top.Parent()
+		}
+		an.Instrs(fn, func(in ssa.Instruction) {
+			st, ok := in.(*ssa.Store)
+			if !ok {
+				return
+			}
+			_, sn, fld, isF := an.FieldOf(st.Addr)
+			if !isF || !strings.HasSuffix(sn, "pkg/resource.WriteRequest") {
+				return
+			}
+			if b, isB := st.Val.Type().Underlying().(*types.Basic); !isB || b.Kind() != types.Bool {
+				return
+			}
+			if setters[fld] == nil {
+				setters[fld] = map[string]token.Pos{}
+			}
+			setters[fld][an.FuncName(top)] = st.Pos()
+		})
+	}
+	var flds []string
+	for f := range setters {
+		flds = append(flds, f)
+	}
+	sort.Strings(flds)
+	for _, f := range flds {
+		var names []string
+		pos := token.NoPos
+		for n, p := range setters[f] {
+			names = append(names, n)
+			pos = p
+		}
+		sort.Strings(names)
+		c.Check(len(names) == 1, rule, "pkg/resource.WriteRequest."+f+"|is switched by one option", pos, strings.Join(names, ", "),
+			"the write-request switch "+f+" is set by more than one option ("+strings.Join(names, ", ")+"): an option turns on behaviour the caller did not choose (an Update with a generated id creating entries, a precondition that is never checked)")
+	}
+	c.Count("write_request_switches", len(flds))
 }
 
 // r0118: an error that is not a gRPC status passes through a write unchanged. Update decorates the STATUS errors it
